@@ -236,9 +236,35 @@ def run_scenario(arg):
         snap0 = dsfs.snapshot(pristine)
         out.update(refs=refs, nold=len(old_vals[0][1]), nnew=len(new_vals[0][1]), files0=sorted(snap0))
 
-        def one(k, variant, keep_data, after_failed=None, rk=None):
+        def handle_append(pf, rec_):
+            pf.write_row_groups(to_df(sc["frame1"], sc["columns"]), list(sc["offsets1"]), compression=sc["compression"], stats=sc["stats"],
+                                open_with=rec_.open_with, mkdirs=rec_.mkdirs)
+
+        def one(k, variant, keep_data, after_failed=None, rk=None, same_handle=False):
             dsfs.restore(pristine, work)
-            if after_failed is not None:
+            pf_h, handle_note = None, None
+            if after_failed is not None and same_handle:
+                # class "failed operation, then CONTINUED use of the same handle": the failing append and its retry go through ONE
+                # ParquetFile; after the reported failure the handle's metadata must equal a fresh open's
+                from fastparquet import ParquetFile
+                pf_h = ParquetFile(work)
+                rec0 = dsfs.Recorder(work, fail_at=after_failed[0], variant=after_failed[1])
+                failed0 = None
+                with rec0:
+                    try:
+                        handle_append(pf_h, rec0)
+                    except BaseException as e:        # noqa
+                        failed0 = "%s: %s" % (type(e).__name__, str(e)[:120])
+                if failed0 is not None:
+                    def cmp_():
+                        fr = ParquetFile(work)
+                        return [dsfs.refs_of(fr), int(fr.fmd.num_rows), len(fr.row_groups)]
+                    st_, fresh_ = dsfs.guarded(cmp_, READ_TIMEOUT)
+                    mine = [[rg.columns[0].file_path for rg in pf_h.fmd.row_groups], int(pf_h.fmd.num_rows), len(pf_h.row_groups)]
+                    if st_ == "ok" and mine != fresh_:
+                        handle_note = "after the failed append (%s) the handle's metadata lists %d row groups / num_rows %d / %d row_groups attribute, a fresh open %d / %d / %d" % (
+                            failed0, len(mine[0]), mine[1], mine[2], len(fresh_[0]), fresh_[1], fresh_[2])
+            elif after_failed is not None:
                 # fault sequence: an append that failed in call after_failed[0] came first (its debris - unreferenced part
                 # files, directories - is still there); the append judged here is the retry
                 rec0 = dsfs.Recorder(work, fail_at=after_failed[0], variant=after_failed[1])
@@ -251,10 +277,13 @@ def run_scenario(arg):
             raised = None
             with rec:
                 try:
-                    do_write(work, sc, sc["frame1"], sc["offsets1"], True, rec)
+                    if pf_h is not None:
+                        handle_append(pf_h, rec)
+                    else:
+                        do_write(work, sc, sc["frame1"], sc["offsets1"], True, rec)
                 except BaseException as e:       # noqa
                     raised = "%s: %s" % (type(e).__name__, str(e)[:200])
-            r = {"k": k, "variant": variant, "raised": raised, "fired": rec.fired, "ncalls": rec.n,
+            r = {"k": k, "variant": variant, "raised": raised, "fired": rec.fired, "ncalls": rec.n, "same_handle": bool(same_handle), "handle_note": handle_note,
                  "trace": rec.trace, "kinds": rec.kinds, "bypassed": rec.bypassed, "fired_at": rec.fired_at,
                  "after_failed": list(after_failed) if after_failed else None,
                  "read_k": rk, "nreads": rec.rn, "rkinds": rec.rkinds}
@@ -290,7 +319,8 @@ def run_scenario(arg):
             return r
 
         if only is not None:                      # replay of one run
-            out["runs"].append(one(only[0], only[1], False, only[2] if len(only) > 2 else None, only[3] if len(only) > 3 else None))
+            out["runs"].append(one(only[0], only[1], False, only[2] if len(only) > 2 else None, only[3] if len(only) > 3 else None,
+                                   only[4] if len(only) > 4 else False))
             return out
         b = one(None, "pre", True)
         out["runs"].append(b)
@@ -319,6 +349,12 @@ def run_scenario(arg):
             v0 = "short" if kinds[k0 - 1] == "write" else VARIANTS[kinds[k0 - 1]][-1]
             out["runs"].append(one(None, "pre", False, (k0, v0)))
             out["runs"].append(one(k0, v0, False, (k0, v0)))
+            out["runs"].append(one(None, "pre", False, (k0, v0), None, True))        # the retry on the SAME handle
+        # ... and after a failure right behind each completed part file (close of the 1st, 2nd, ... new part): retry on the same handle
+        closes = [i_ + 1 for i_, kd in enumerate(kinds[:nb]) if kd == "close"]
+        for k0 in closes[:3]:
+            if k0 + 1 <= nb:
+                out["runs"].append(one(None, "pre", False, (k0 + 1, "pre"), None, True))
     except BaseException:                         # noqa
         out["error"] = traceback.format_exc()[-3000:]
     finally:
@@ -340,6 +376,8 @@ def judge(sc, res, r):
     renamed = [c for c in tr if c[0] in ("rename", "remove") and any(p in old_files for p in c[1:])]
     if renamed:
         problems.append(("renamed-or-removed-existing-data-file", "%s" % renamed[:3]))
+    if r.get("handle_note"):
+        problems.append(("handle-metadata-differs-after-failed-append", r["handle_note"]))
     if r["raised"] is None:
         if r["read"] != "new":
             problems.append(("returned-but-not-new-content",
@@ -411,9 +449,15 @@ def run(ctx):
     good = [p_ for p_ in paths if real_part_id(p_)]
     lists = [[rng.choice(good) for _ in range(rng.choice([0, 1, 2, 5]))] + ([rng.choice(paths)] if rng.random() < 0.2 else [])
              for _ in range(100 if ctx.quick() else 1000)]
-    mo = pq.batch([("find_max_part", [p_.encode() for p_ in l]) for l in lists])
+    # (repo fix 59b66a8: api.part_ids ignores references that are not named part.<i>.parquet -> FsPaths.find_max_part_skip;
+    #  on lists of matching names it is FsPaths.find_max_part, theorem C19_find_max_part_skip_agrees)
+    mo = pq.batch([("find_max_part_skip", [p_.encode() for p_ in l]) for l in lists])
     for l, m in zip(lists, mo):
-        ctx.correspondence("FsPaths.find_max_part ~ writer.find_max_part", {"paths": l}, m, real_find_max_part(l))
+        ctx.correspondence("FsPaths.find_max_part_skip ~ writer.find_max_part", {"paths": l}, m, real_find_max_part(l))
+    good_lists = [l for l in lists if all(real_part_id(p_) for p_ in l)]
+    mo = pq.batch([("find_max_part", [p_.encode() for p_ in l]) for l in good_lists])
+    for l, m in zip(good_lists, mo):
+        ctx.correspondence("FsPaths.find_max_part ~ writer.find_max_part (references all named part.<i>.parquet)", {"paths": l}, m, real_find_max_part(l))
     model_trace = {"equal": 0, "different": 0, "examples": []}
     strict = {"true": 0, "false": 0}
     sym_info = {"true": 0, "false": 0}
@@ -440,10 +484,12 @@ def run(ctx):
         ctx.count("calls_per_append", (res["runs"][0]["ncalls"] // 20) * 20)
         refs = res["refs"]
         for r in res["runs"]:
-            case = {"scenario": sc, "k": r["k"], "variant": r["variant"], "after_failed": r.get("after_failed"), "read_k": r.get("read_k")}
+            case = {"scenario": sc, "k": r["k"], "variant": r["variant"], "after_failed": r.get("after_failed"), "read_k": r.get("read_k"),
+                    "same_handle": r.get("same_handle", False)}
             short = {"scenario": sc["id"], "k": r["k"], "variant": r["variant"], "fired": r["fired"], "raised": r["raised"],
-                     "after_failed": r.get("after_failed"), "read_k": r.get("read_k")}
-            ctx.case({"sc": sc["id"], "k": r["k"], "v": r["variant"], "f": sc["frame1"], "p": sc["partition_on"], "af": r.get("after_failed"), "rk": r.get("read_k")},
+                     "after_failed": r.get("after_failed"), "read_k": r.get("read_k"), "same_handle": r.get("same_handle", False)}
+            ctx.case({"sc": sc["id"], "k": r["k"], "v": r["variant"], "f": sc["frame1"], "p": sc["partition_on"], "af": r.get("after_failed"), "rk": r.get("read_k"),
+                      "sh": r.get("same_handle", False)},
                      trivial=(r["k"] is None and not r.get("after_failed") and r.get("read_k") is None))
             if r.get("read_k") is not None:
                 ctx.count("fault_kind", "%s/%s" % (r["fired"][1] if r["fired"] else "not-reached", r["variant"]))
@@ -451,7 +497,8 @@ def run(ctx):
                 if r["fired"] is None:
                     ctx.obligation("fault injector reached read-side call %s of scenario %s" % (r["read_k"], sc["id"]), False, "the k-th read-side call was never issued")
             if r.get("after_failed"):
-                ctx.count("fault_sequence", "failed append, then %s" % ("fault-free retry" if r["k"] is None else "retry failing again"))
+                ctx.count("fault_sequence", "failed append, then %s%s" % ("fault-free retry" if r["k"] is None else "retry failing again",
+                                                                         " on the SAME handle" if r.get("same_handle") else ""))
             if r["k"] is not None:
                 ctx.count("fault_kind", "%s/%s" % (r["fired"][1] if r["fired"] else "not-reached", r["variant"]))
             phase, problems = judge(sc, res, r)
@@ -506,13 +553,13 @@ def run(ctx):
             ok = ctx.correspondence("check_safe_gen(recorded trace of the real append) = true", short, 1, o)
             if not ok and len(ctx.broken) and "trace" not in ctx.broken[-1]:
                 ctx.broken[-1]["trace"] = dsfs.trace_json(r["trace"], 200)
-            gen_seen[(short["scenario"], short["k"], short["variant"], str(short.get("after_failed")), short.get("read_k"))] = o
+            gen_seen[(short["scenario"], short["k"], short["variant"], str(short.get("after_failed")), short.get("read_k"), short.get("same_handle"))] = o
             continue
         if kind == "safe":
             # today's code is also inside the stricter relation (summary files written in place, in either order); information,
             # and a run-time check that the general relation contains it (sym accepted => gen accepted)
             sym_info["true" if o == 1 else "false"] += 1
-            g = gen_seen.get((short["scenario"], short["k"], short["variant"], str(short.get("after_failed")), short.get("read_k")))
+            g = gen_seen.get((short["scenario"], short["k"], short["variant"], str(short.get("after_failed")), short.get("read_k"), short.get("same_handle")))
             if o == 1 and g != 1:
                 ctx.correspondence("check_safe_trace_sym accepted => check_safe_gen accepted (the general relation contains the strict one)", short, 1, g)
             continue
@@ -546,7 +593,7 @@ def replay(rep):
     sc = case["scenario"]
     tmp = tempfile.mkdtemp(prefix="verif-C19-replay-", dir="/tmp")
     try:
-        res = run_scenario((sc, tmp, "quick", (case["k"], case["variant"], case.get("after_failed"), case.get("read_k"))))
+        res = run_scenario((sc, tmp, "quick", (case["k"], case["variant"], case.get("after_failed"), case.get("read_k"), case.get("same_handle", False))))
         if res["error"]:
             print(res["error"])
             return 1
@@ -558,7 +605,7 @@ def replay(rep):
         print("scenario: partition_on=%s, %d old rows in %d files, append of %d rows in %d row groups" % (
             sc["partition_on"], res["nold"], len(res["refs"]), res["nnew"], sc["new_parts"]))
         if r.get("after_failed"):
-            print("first an append failing in call %s (%s); judged is the retry:" % tuple(r["after_failed"]))
+            print("first an append failing in call %s (%s); judged is the retry%s:" % (tuple(r["after_failed"]) + (" through the SAME ParquetFile handle" if r.get("same_handle") else "",)))
         print("fault: k=%s read-side k=%s variant=%s fired=%s" % (r["k"], r.get("read_k"), r["variant"], r["fired"]))
         print("append: %s" % ("raised " + r["raised"] if r["raised"] else "returned normally"))
         print("fresh open reads: %s %s   (phase: %s)" % (r["read"], r.get("read_detail", ""), phase))
